@@ -20,6 +20,7 @@ def plan(tier, ctx):
     j += fvm.config('C16', 'ring_1p2c', 'ring.c', 3, 4, 'sc', defines=['NPUSH=2', 'NPOP=1'], spec=S, bounds='cap 2, 1 pusher x 2, 2 poppers x 1')
     j += fvm.config('C16', 'ring_2p1c_wrap', 'ring.c', 3, 4, 'sc', defines=['CFG_2P1C', 'NPUSH=1', 'NPOP=2', 'WRAP'], spec=S, bounds='cap 2, indices wrap through 2^64')
     j += fvm.config('C16', 'ring_2p1c', 'ring.c', 3, 4, 'tso', defines=['CFG_2P1C', 'NPUSH=1', 'NPOP=2'], spec=S, bounds='cap 2, x86-TSO')
+    j += fvm.config('C16', 'ring_mix_3pops', 'ring.c', 3, 4, 'sc', defines=['CFG_MIX', 'NPUSH=2', 'NPOP=1'], spec=S, bounds='cap 2, one thread pushes 2 and pops 1, two more poppers x 1', timeout=1500)
     j += fvm.config('C16', 'ring_2p1c_lap', 'ring.c', 3, 4, 'sc', defines=['CFG_2P1C', 'NPUSH=1', 'NPUSH2=2', 'NPOP=1'], spec=S, bounds='cap 2, pusher A x 1 (may stall between claim and write), pusher B x 2 (laps it), popper x 1', timeout=900)
     if tier == 'thorough':
         j += fvm.config('C16', 'ring_2p1c_2x3', 'ring.c', 3, 5, 'sc', defines=['CFG_2P1C', 'NPUSH=2', 'NPOP=3'], spec=S, bounds='cap 2, 2 pushers x 2, 1 popper x 3', timeout=1800, required=False)
